@@ -181,6 +181,10 @@ def gen_string_atom(rng, cfg):
 
 
 def gen_extra_atom(rng, cfg):
+    if rng.random() < cfg["p_set_vars"]:
+        # lock-file style set-valued variables: "name" in extras / "group" not in dependency_groups
+        return atom(rng.choice(["extras", "extras", "dependency_groups"]), rng.choice(["in", "in", "not in"]),
+                    rng.choice(cfg["extras"]), True)
     return atom("extra", rng.choice(["==", "==", "==", "!="]), rng.choice(cfg["extras"]),
                 rng.random() < cfg["p_flip"] * 0.5)
 
@@ -426,6 +430,7 @@ def gen_config(rng, fault_class=None):
         "p_flip": rng.choice([0.0, 0.15, 0.3, 0.5]),
         "p_long_pv": rng.choice([0.1, 0.1, 0.5]),
         "p_pfv_lists": rng.choice([0.0, 0.3, 1.0]),
+        "p_set_vars": rng.choice([0.0, 0.0, 0.3, 0.7]),
         "list_sizes": rng.choice([[1, 2, 2, 3], [1, 2, 2, 3], [3, 3, 4]]),
         "p_invalid": rng.choice([0.0, 0.0, 0.3]),
         "p_single": rng.choice([0.25, 0.4, 0.6]),
@@ -668,6 +673,9 @@ def saturation_universe(rng, cfg):
             for op in ("==", "!="):
                 atoms.append(atom("extra", op, v, False))
                 atoms.append(atom("extra", op, v, True))
+            for name in ("extras", "dependency_groups"):
+                for op in ("in", "not in"):
+                    atoms.append(atom(name, op, v, True))
     if len(atoms) > 36:
         atoms = rng.sample(atoms, 36)
     return atoms
@@ -975,7 +983,7 @@ def make_envs(steps, cap=24):
         vals.append("zzz")
         strings[name] = vals
     extras = [""]
-    for v in lits.get("extra", []):
+    for v in lits.get("extra", []) + lits.get("extras", []) + lits.get("dependency_groups", []):
         for cand in (v, v.lower().replace("_", "-").replace(".", "-")):
             if cand not in extras:
                 extras.append(cand)
@@ -999,9 +1007,16 @@ def make_envs(steps, cap=24):
             "platform_release": releases[(i * 5 + 1) % len(releases)],
             "platform_version": "#1 SMP",
         }
+        if i % 6 == 5:
+            # a pre-release interpreter of that version (3.11.0rc1 sorts before 3.11.0)
+            env["python_full_version"] = f"{major}.{minor}.{micro}" + ("rc1" if i % 12 == 5 else "b2")
         for k, (name, vals) in enumerate(sorted(strings.items())):
             env[name] = vals[(i * (k + 2) + k) % len(vals)]
         env["extra"] = extras[(i * 3) % len(extras)]
+        groups = [e for e in extras if e]
+        env["extras"] = sorted({groups[(i + j + i // 4) % len(groups)] for j in range(i % 3)}) if groups else []
+        env["dependency_groups"] = sorted({groups[(i * 2 + j + i // 3) % len(groups)] for j in range((i + 1) % 3)}) if groups else []
+        env["__sets__"] = ["extras", "dependency_groups"]
         envs.append(env)
     # one set-valued extra environment (dep_logic's batch form)
     if len(extras) > 2:
